@@ -5,9 +5,13 @@ import Q1t.Spec.WellFormed
 import Q1t.Gen.Conj
 import Q1t.Gen.PhaseTable
 /-!
-C18: closed computations for the negative witnesses — circuits the builders ACCEPT that violate exactly
+C18: closed computations for the witnesses — circuits the builders ACCEPT that violate exactly
 one conjunct of `WellFormed`, and what the model of the pinned code (validated against the code by the
-correspondence run) does with them.  Exact amplitudes `Q8 = ℚ(ζ₈)`, everything evaluated by the kernel.
+correspondence run) does with them (negative witnesses where the code still panics or diverges; since the
+repairs of the stabilizer `measure_all_into` / `peek_all_into` / `apply_gate` / `apply_conditional_gate` checks
+and of the LaTeX export of `reset_all` / `barrier(&[])`, positive ones: both representations return the same
+error, the exporter draws).  Exact amplitudes `Q8 = ℚ(ζ₈)`, everything evaluated by the kernel.
+Plus the general form of the repaired checks (`*_rejected_identically`): all states, all operand lists.
 -/
 namespace Q1t.C18W
 open Q1t Q1t.Sim Q1t.Sim.Prog Q1t.Builders Q1t.ExportClass Q1t.WellFormed
@@ -81,9 +85,9 @@ def wCondArity : List (Call Empty) := [.addConditionalGate [0] 1 .H []]
 def wEmptyOperands : List (Call Empty) := [.addGate .H []]
 /-- D11: Toffoli with the first control between the other operands -/
 def wCtrlBetween : List (Call Empty) := [.addGate (.C .CX) [1, 0, 2]]
-/-- D11: `reset_all` without qubits -/
+/-- `reset_all` without qubits (LaTeX used to panic on it) -/
 def wResetAll0 : List (Call Empty) := [.resetAll]
-/-- an empty barrier -/
+/-- an empty barrier (LaTeX used to panic on it) -/
 def wBarrier0 : List (Call Empty) := [.barrier []]
 /-- a conditional gate controlled by classical bit 1 on a one-qubit circuit -/
 def wCondCtl : List (Call Empty) := [.addConditionalGate [1] 1 .X [0]]
@@ -110,11 +114,11 @@ theorem dup_latex : latexOutcome (built 2 0 wDup) = .panic := by decide +kernel
 theorem mall_accepted : allAccepted 2 2 wMeasureAllShort = true := by decide +kernel
 theorem mall_defects : circDefects (built 2 2 wMeasureAllShort) = [.measureAllLen] := by decide +kernel
 theorem mall_vec : runVec (built 2 2 wMeasureAllShort) 1 [] = .err (.invalidNrMeasurementBits 1 2) := by decide +kernel
-theorem mall_stab : runStab (built 2 2 wMeasureAllShort) 1 [] = .ok := by decide +kernel
+theorem mall_stab : runStab (built 2 2 wMeasureAllShort) 1 [] = .err (.invalidNrMeasurementBits 1 2) := by decide +kernel
 
 theorem pall_accepted : allAccepted 1 2 wPeekAllLong = true := by decide +kernel
 theorem pall_vec : runVec (built 1 2 wPeekAllLong) 1 [] = .err (.invalidNrMeasurementBits 2 1) := by decide +kernel
-theorem pall_stab : runStab (built 1 2 wPeekAllLong) 1 [] = .panic := by decide +kernel
+theorem pall_stab : runStab (built 1 2 wPeekAllLong) 1 [] = .err (.invalidNrMeasurementBits 2 1) := by decide +kernel
 theorem pall_oq : openQasmCls (built 1 2 wPeekAllLong) = .err := by decide +kernel
 
 theorem cbit_accepted : allAccepted 1 65 wCbit64 = true := by decide +kernel
@@ -132,7 +136,17 @@ theorem cond_one_stab : runStab (built 1 1 wCond) 1 [] = .ok := by decide +kerne
 theorem condArity_accepted : allAccepted 1 1 wCondArity = true := by decide +kernel
 theorem condArity_defects : circDefects (built 1 1 wCondArity) = [.arity] := by decide +kernel
 theorem condArity_vec : runVec (built 1 1 wCondArity) 1 [] = .err (.invalidNrBits 0 1) := by decide +kernel
-theorem condArity_stab : runStab (built 1 1 wCondArity) 1 [] = .ok := by decide +kernel
+theorem condArity_stab : runStab (built 1 1 wCondArity) 1 [] = .err (.invalidNrBits 0 1) := by decide +kernel
+
+/-- the identity gate (whose `conjugate` has no arity check) on two qubits; a one-qubit gate on no qubit of a
+circuit without qubits (no tableau row is ever conjugated): both used to run through on the stabilizer representation -/
+def wIdentityArity : List (Call Empty) := [.addGate .I [0, 1]]
+theorem identityArity_accepted : allAccepted 2 0 wIdentityArity = true := by decide +kernel
+theorem identityArity_vec : runVec (built 2 0 wIdentityArity) 1 [] = .err (.invalidNrBits 2 1) := by decide +kernel
+theorem identityArity_stab : runStab (built 2 0 wIdentityArity) 1 [] = .err (.invalidNrBits 2 1) := by decide +kernel
+theorem empty0_accepted : allAccepted 0 0 wEmptyOperands = true := by decide +kernel
+theorem empty0_vec : runVec (built 0 0 wEmptyOperands) 1 [] = .err (.invalidNrBits 0 1) := by decide +kernel
+theorem empty0_stab : runStab (built 0 0 wEmptyOperands) 1 [] = .err (.invalidNrBits 0 1) := by decide +kernel
 
 theorem empty_accepted : allAccepted 1 0 wEmptyOperands = true := by decide +kernel
 theorem empty_defects : circDefects (built 1 0 wEmptyOperands) = [.arity] := by decide +kernel
@@ -145,12 +159,14 @@ theorem ctrl_defects : circDefects (built 3 0 wCtrlBetween) = [.ctrlBetweenTarge
 theorem ctrl_latex : latexOutcome (built 3 0 wCtrlBetween) = .panic := by decide +kernel
 
 theorem resetAll0_accepted : allAccepted 0 0 wResetAll0 = true := by decide +kernel
-theorem resetAll0_defects : circDefects (built 0 0 wResetAll0) = [.resetAllNoQubits] := by decide +kernel
-theorem resetAll0_latex : latexOutcome (built 0 0 wResetAll0) = .panic := by decide +kernel
+theorem resetAll0_defects : circDefects (built 0 0 wResetAll0) = [] := by decide +kernel
+theorem resetAll0_wf : WellFormed (built 0 0 wResetAll0) 1 = true := by decide +kernel
+theorem resetAll0_latex : latexOutcome (built 0 0 wResetAll0) = .ok () := by decide +kernel
 
 theorem barrier0_accepted : allAccepted 1 0 wBarrier0 = true := by decide +kernel
-theorem barrier0_defects : circDefects (built 1 0 wBarrier0) = [.emptyBarrier] := by decide +kernel
-theorem barrier0_latex : latexOutcome (built 1 0 wBarrier0) = .panic := by decide +kernel
+theorem barrier0_defects : circDefects (built 1 0 wBarrier0) = [] := by decide +kernel
+theorem barrier0_wf : WellFormed (built 1 0 wBarrier0) 1 = true := by decide +kernel
+theorem barrier0_latex : latexOutcome (built 1 0 wBarrier0) = .ok () := by decide +kernel
 
 theorem condCtl_accepted : allAccepted 1 2 wCondCtl = true := by decide +kernel
 theorem condCtl_defects : circDefects (built 1 2 wCondCtl) = [.condControlGeNq] := by decide +kernel
@@ -177,5 +193,45 @@ theorem good_wf : WellFormed (built 2 2 wGood) 3 = true := by decide +kernel
 theorem good_oq : openQasmCls (built 2 2 wGood) = .ok := by decide +kernel
 theorem good_cq : cQasmCls (built 2 2 wGood) = .ok := by decide +kernel
 theorem good_latex : latexOutcome (built 2 2 wGood) = .ok () := by decide +kernel
+
+/-! ### the repaired checks in general: every state, every operand list -/
+
+section general
+variable {α P : Type} [Zero α] [One α] [Add α] [Mul α] [Neg α] [Sub α] [Amp α P] [SimAmp α]
+
+/-- `measure_all` / `peek_all` with a bit list whose length is not the number of qubits: both representations return
+`InvalidNrMeasurementBits(len, nr_bits)` (or, first, `NotEnoughSpace` for a short result array), before anything is
+sampled or written — for all states of equal size, all bit lists, all result arrays -/
+theorem measure_all_len_rejected_identically (half : α) (ph : List Nat) (sv : VecState α) (ss : StabState)
+    (cbits res : List Nat) (collapse : Bool) (hn : sv.nrBits = ss.nrBits) (hN : sv.nrShots = ss.nrShots)
+    (hl : cbits.length ≠ ss.nrBits) :
+    ∃ e, (e = .notEnoughSpace res.length ss.nrShots ∨ e = .invalidNrMeasurementBits cbits.length ss.nrBits) ∧
+      VecState.measureAllHelper sv cbits res collapse = Prog.err e ∧
+      StabState.measureAllInto half ph ss cbits res = Prog.err e ∧
+      StabState.peekAllInto half ss cbits res = Prog.err e := by
+  by_cases hr : res.length < ss.nrShots
+  · exact ⟨.notEnoughSpace res.length ss.nrShots, Or.inl rfl, by simp [VecState.measureAllHelper, hN, hr], by simp [StabState.measureAllInto, hr],
+      by simp [StabState.peekAllInto, hr]⟩
+  · exact ⟨.invalidNrMeasurementBits cbits.length ss.nrBits, Or.inr rfl, by simp [VecState.measureAllHelper, hN, hn, hr, hl],
+      by simp [StabState.measureAllInto, hr, hl], by simp [StabState.peekAllInto, hr, hl]⟩
+
+/-- a gate with the wrong number of operands: both representations return `InvalidNrBits(len, arity)` from
+`apply_gate`, and from `apply_conditional_gate` whatever the control mask selects (also: no shot, no tableau row,
+the identity gate) — for all states, gates, operand lists -/
+theorem gate_arity_rejected_identically (ph : List Nat) (conjOf : GateTerm P → Tableau.Tab.Conj) (sv : VecState α)
+    (ss : StabState) (g : GateTerm P) (bits : List Nat) (control : List Bool) (hN : sv.nrShots = ss.nrShots)
+    (hl : Gate.nrBits g ≠ bits.length) :
+    VecState.applyGate sv g bits = Prog.err (.invalidNrBits bits.length (Gate.nrBits g)) ∧
+    StabState.applyGate (α := α) ph conjOf ss g bits = Prog.err (.invalidNrBits bits.length (Gate.nrBits g)) ∧
+    ∃ e, VecState.applyConditional sv control g bits = Prog.err e ∧
+      StabState.applyConditional (α := α) ph conjOf ss control g bits = Prog.err e := by
+  refine ⟨by simp [VecState.applyGate, hl], by simp [StabState.applyGate, hl], ?_⟩
+  by_cases hc : control.length ≠ ss.nrShots
+  · exact ⟨.invalidNrControlBits control.length ss.nrShots, by simp [VecState.applyConditional, hN, hc],
+      by simp [StabState.applyConditional, hc]⟩
+  · exact ⟨.invalidNrBits bits.length (Gate.nrBits g), by simp [VecState.applyConditional, hN, hc, hl],
+      by simp [StabState.applyConditional, hc, hl]⟩
+
+end general
 
 end Q1t.C18W
